@@ -12,9 +12,10 @@ MC_Ss == {<<0, 0>>, <<1, 1>>}
 MC_McIn == {0, 1, 2, 3, 5, 9, 12}
 MC_TcIn == {2, 1, 0}
 MC_CpIn == {2, 1, 5, 10}
-MC_QuirksOff == [lin_to_yuv_raw_cfg |-> FALSE, rgb_to_yuv_panics_on_odd |-> FALSE]
-MC_QuirkF3   == [lin_to_yuv_raw_cfg |-> TRUE,  rgb_to_yuv_panics_on_odd |-> FALSE]
-MC_QuirkF4   == [lin_to_yuv_raw_cfg |-> FALSE, rgb_to_yuv_panics_on_odd |-> TRUE]
+MC_QuirksOff == [lin_to_yuv_raw_cfg |-> FALSE, rgb_to_yuv_panics_on_odd |-> FALSE, lin_to_rgb_primaries_first |-> FALSE]
+MC_QuirkF3   == [lin_to_yuv_raw_cfg |-> TRUE,  rgb_to_yuv_panics_on_odd |-> FALSE, lin_to_rgb_primaries_first |-> FALSE]
+MC_QuirkF4   == [lin_to_yuv_raw_cfg |-> FALSE, rgb_to_yuv_panics_on_odd |-> TRUE, lin_to_rgb_primaries_first |-> FALSE]
+MC_QuirkF8   == [lin_to_yuv_raw_cfg |-> FALSE, rgb_to_yuv_panics_on_odd |-> FALSE, lin_to_rgb_primaries_first |-> TRUE]
 
 \* the resolution is a pure function of (config, dimensions): re-resolving is idempotent and never leaves 2
 ResolutionSound ==
@@ -40,7 +41,7 @@ PinnedSymmetric ==
   \A m \in McAll \ {Unspec}, t \in TcAll \ {Unspec}, p \in CpAll \ {Unspec} :
     /\ \A c \in ConvNames : (Res(c, m, t, p) = "ok") <=> (Res(Rev(c), m, t, p) = "ok")
     /\ Res("YuvToRgb", m, t, p) = Res("RgbToYuv", m, t, p)
-    /\ (t \in Tc14 \/ p \in Cp11) => Res("RgbToLin", m, t, p) = Res("LinToRgb", m, t, p)
+    /\ Res("RgbToLin", m, t, p) = Res("LinToRgb", m, t, p)   \* literally "the same error", also when both fields offend (F8)
     /\ \A c \in ConvNames : Res(c, m, t, p) \in AllowedOutcomes(c, m, t, p)
 ASSUME PinnedSymmetric
 ASSUME ResolutionSound
